@@ -282,6 +282,8 @@ static void dump_tables() {
   printf("const sig_gp32 %u\n", RegTraits<RegType::kGp32>::kSignature);
   printf("const sig_gp64 %u\n", RegTraits<RegType::kGp64>::kSignature);
   printf("const kVO_V_Any %u\n", uint32_t(a64::InstDB::kVO_V_Any));
+  printf("const kVO_V_B %u\n", uint32_t(a64::InstDB::kVO_V_B));
+  printf("const kVO_V_HS %u\n", uint32_t(a64::InstDB::kVO_V_HS));
   printf("const kVO_V_B8D1 %u\n", uint32_t(a64::InstDB::kVO_V_B8D1));
   printf("const kVO_V_B16D2 %u\n", uint32_t(a64::InstDB::kVO_V_B16D2));
   for (uint32_t rt = 0; rt < 32; rt++) printf("row regSignature %u value=%u\n", rt, RegUtils::signature_of(RegType(rt)).bits());
